@@ -200,8 +200,14 @@ def monitors(rep, rng, runq, todo, f, data, comps, grids, expansions, normalize,
                 h.univariate_expansions = [dict(e) for e in expansions]
                 h.fit(data, method_smoothing=None)
                 Eh = [np.asarray(c.values, float) for c in h.eigenfunctions.to_grid().data]
+                rec_h = h.inverse_transform(sc_rand)
             same = (np.array_equal(np.asarray(h.eigenvalues, float), np.asarray(f.eigenvalues, float))
                     and len(Eh) == len(E) and all(a_.shape == b_.shape and np.array_equal(a_, b_) for a_, b_ in zip(Eh, E)))
+            if normalize and not np.array_equal(np.asarray(h.weights, float), np.asarray(f.weights, float)):
+                same = False
+            for p_ in range(len(E)):
+                if not np.array_equal(np.asarray(rec_h.data[p_].values, float), np.asarray(rec.data[p_].values, float)):
+                    same = False
             rep.case((key, "refit"), kind="history-refit/MFPCA")
             if not same:
                 bad.append("a fit on this dataset after a fit on another dataset differs from a fresh fit (state kept from the earlier fit)")
